@@ -62,6 +62,10 @@ pub struct World {
     /// while `rpc()` is still inside its send
     #[serde(default)]
     pub slow_flush: bool,
+    /// the reply to this request is large (about 70 KiB): code that treats big messages
+    /// differently (yields, copies, chunks) must stay correct and cancellation safe
+    #[serde(default)]
+    pub big_reply: Option<u8>,
 }
 
 type Tagged = Result<String, String>;
@@ -291,6 +295,9 @@ pub fn run_world(w: &World) -> Result<Trace, String> {
                 let id = message_id_lenient(&sent[seen_requests]).unwrap_or_default();
                 if let Some(&idx) = wire_req.get(received.len()) {
                     tags[idx] = format!("tag-{idx}-{id}");
+                    if w.big_reply.is_some_and(|b| b as usize % n == idx) {
+                        tags[idx].push_str(&"x".repeat(70_000));
+                    }
                     received.push((idx, id.clone()));
                     trace.ids.push(id);
                 } else {
@@ -577,6 +584,9 @@ fn judge(w: &World, prop_id: &str, obs: &mut Obs) {
     if trace.slow_flush_used {
         obs.class("send-returns-after-the-server-could-answer");
     }
+    if w.big_reply.is_some() {
+        obs.class("one-reply-of-70-KiB");
+    }
     if !trace.stray_ids.is_empty() {
         obs.class("stray-reply");
     }
@@ -737,10 +747,11 @@ fn world_strategy(max_n: usize, drops: bool, sched_len: usize) -> BoxedStrategy<
                     1 => prop::collection::vec((0..n as u8, any::<bool>()), 1..3),
                 ],
                 prop::bool::weighted(0.3),
+                prop::option::weighted(0.08, 0u8..6),
             )
         })
         .prop_map(
-            |(ops, arrival, groups, sequential, strays, gate_closes, drops, schedule, send_faults, slow_flush)| World {
+            |(ops, arrival, groups, sequential, strays, gate_closes, drops, schedule, send_faults, slow_flush, big_reply)| World {
                 ops,
                 arrival,
                 groups,
@@ -751,6 +762,7 @@ fn world_strategy(max_n: usize, drops: bool, sched_len: usize) -> BoxedStrategy<
                 schedule,
                 send_faults,
                 slow_flush,
+                big_reply,
             },
         )
         .boxed()
